@@ -321,6 +321,40 @@ def classes_of(t):
     return {c for c, _ in t[2]}
 
 
+def _optimised(vec):
+    """the scripted optimize on one class vector: stable sort by attribute descending (None lowest), keep 3, a kept
+    attribute 9 drains the vector; -> (vector, poisoned: a kept attribute 7 makes optimize fail)"""
+    kept = sorted(vec, key=lambda o: -(0 if o[0] is None else o[0] + 1))[:3]
+    if any(o[0] == 9 for o in kept):
+        kept = []
+    return tuple(kept), any(o[0] == 7 for o in kept)
+
+
+def expected_merge(dst, src, classes, implicit_all, plan, w0):
+    """The outcome a merge MUST have, derived from the property and the fail plan alone (not from the implementation):
+    the attribute merge is invocation w0[1] of its kind; then every requested class present in either track is optimised
+    once, in list order (invocations w0[2], w0[2]+1, ..); a planned or natural failure of any of them fails the merge.
+    classes empty + implicit_all (store: None / empty list) = all classes of the source (order irrelevant for the verdict).
+    -> ((code), number of optimize invocations of the unfaulted merge)"""
+    if w0[1] in plan[1] or (dst[1][0] + src[1][0]) % 5 == 4:
+        return (2, 0), 0
+    dobs = {c: tuple(v) for c, v in dst[2]}
+    sobs = {c: tuple(v) for c, v in src[2]}
+    req = list(classes) if classes else (sorted(sobs) if implicit_all else [])
+    j = 0
+    failed = False
+    for c in req:
+        if c not in dobs and c not in sobs:
+            continue
+        idx = w0[2] + j
+        j += 1
+        vec, poisoned = _optimised(dobs.get(c, ()) + sobs.get(c, ()))
+        if idx in plan[2] or poisoned:
+            failed = True
+        dobs[c] = vec
+    return ((3, 0) if failed else (0, 0)), j
+
+
 def c11_oracle(script, result):
     """-> None or (key, message, step index)"""
     if result.get("panic"):
@@ -351,6 +385,12 @@ def c11_oracle(script, result):
                     return ("C11:%s:notifications" % k, "successful %s emitted %d notifications (expected exactly 1)" % (k, st["n"]), i)
                 if k == "TM":
                     src = regs.get(op[2])
+                    exp, _ = expected_merge(before, src, op[3], False, result["plan"], raw[i]["w0"])
+                    if exp != (0, 0):
+                        return ("C11:merge:error-swallowed",
+                                "Track::merge returned Ok although %s must fail (every requested class present in either track is "
+                                "optimised once, in list order; fail plan %r, counters at the start %r)"
+                                % ("the attribute merge" if exp[0] == 2 else "the optimisation of a requested class", result["plan"], raw[i]["w0"]), i)
                     present = any(c in classes_of(before) or c in classes_of(src) for c in op[3])
                     if not history_ok(before[4], src[4], after[4], op[4], present):
                         return ("C11:merge:history", "merge history after a successful merge: before %r source %r after %r (history flag %s, requested class present: %s)"
@@ -399,6 +439,14 @@ def c11_oracle(script, result):
             # Track::merge on the very same tracks fails - whatever the store then reports
             really_failed = (op[1] not in prev or (k == "MO" and op[2] not in prev) or op[1] == op[2]
                              or (d0 is not None and d0["r"][0] != 0))
+            if not really_failed and d0 is not None:
+                exp, _ = expected_merge(prev[op[1]], norm_track_impl(d0["src"]), op[3] or [], True, result["plan"], raw[i]["w0"])
+                if exp != (0, 0) and ok:
+                    return ("C11:merge:error-swallowed",
+                            "%s returned Ok although %s must fail (every requested class present in either track is optimised once, in "
+                            "list order; fail plan %r, counters at the start %r); store ids before %r after %r"
+                            % (k, "the attribute merge" if exp[0] == 2 else "the optimisation of a requested class", result["plan"],
+                               raw[i]["w0"], sorted(prev), sorted(cur)), i)
             if really_failed and ok and cur != prev:
                 return ("C11:%s:not-restored" % ("merge_owned" if k == "MO" else "merge_external"),
                         "a merge that failed (reported as success) did not leave the stored tracks as they were: before ids %r after ids %r"
@@ -650,6 +698,44 @@ def gen_big_ids(tier):
     return out
 
 
+def extra_fault_scripts(pairs):
+    """Fault positions the implementation's own invocation count does not reach: for every unfaulted run whose last
+    operation is a successful merge, the number of optimize invocations the property requires (expected_merge) is
+    compared with the number observed; for each missing position a script with that single planned failure is issued."""
+    out = []
+    for s, r in pairs:
+        if r.get("fault") or r.get("panic") or not s.enum:
+            continue
+        op = s.ops[-1]
+        k = op[0]
+        if k not in ("TM", "MO", "ME", "MN"):
+            continue
+        steps = norm_steps_impl(s.kind, r)
+        last = r["steps"][-1]
+        if last["r"][1] != 0:
+            continue
+        if s.kind == "T":
+            regs = {}
+            for o, st in zip(s.ops[:-1], steps[:-1]):
+                if st["tracks"]:
+                    regs[o[1]] = st["tracks"][0]
+            dst, src = regs.get(op[1]), regs.get(op[2])
+            if dst is None or src is None:
+                continue
+            exp, cnt = expected_merge(dst, src, op[3], False, r["plan"], last["w0"])
+        else:
+            d0 = last.get("direct")
+            prev = store_map(steps[-2]["shards"]) if len(steps) > 1 else {}
+            if d0 is None or op[1] not in prev:
+                continue
+            exp, cnt = expected_merge(prev[op[1]], norm_track_impl(d0["src"]), op[3] or [], True, r["plan"], last["w0"])
+        seen = len(last["order"])
+        for j in range(seen, cnt):
+            plan = (tuple(r["plan"][0]), tuple(r["plan"][1]), tuple(r["plan"][2]) + (last["w0"][2] + j,))
+            out.append(Script(s.kind, "%s+o%d" % (s.case, j), s.ops, s.shards, plan, False, s.meta))
+    return out
+
+
 def replay_cmd(script, plan):
     s = script.with_plan(plan)
     return "printf '%s\\n' '" + s.line() + "' > /tmp/ts_replay.txt && /verif/.cache/target/release/trackstore run --file /tmp/ts_replay.txt"
@@ -683,6 +769,12 @@ def first_oracle_failure(script, oracle, key=None):
         res = run_scripts([script], tag="min")
     except RuntimeError:
         return None
+    try:
+        extra = extra_fault_scripts(res)
+        if extra:
+            res += run_scripts(extra, tag="minx")
+    except (RuntimeError, KeyError, IndexError):
+        pass
     for s, r in res:
         f = oracle(s, r)
         if f is not None and (key is None or f[0] == key):
@@ -705,7 +797,12 @@ def run(chk):
     scripts = (gen_track_add(chk.tier) + gen_track_merge(chk.tier) + gen_store(chk.tier)
                + gen_drained(chk.tier) + gen_big_ids(chk.tier))
     pairs = run_scripts(scripts, tag="c11")
-    chk.log("implementation: %d scripts, %d runs (base + one per fault position)" % (len(scripts), len(pairs)))
+    extra = extra_fault_scripts(pairs)
+    if extra:
+        # the implementation performs fewer optimize invocations than the property requires: plan failures there too
+        pairs += [(s, dict(r, fault="optimize#(required, not reached)")) for s, r in run_scripts(extra, tag="c11x")]
+    chk.log("implementation: %d scripts, %d runs (base + one per fault position; %d at required-but-unreached positions)"
+            % (len(scripts), len(pairs), len(extra)))
 
     # property oracle on every run
     findings = []
